@@ -706,3 +706,145 @@ func TestC11_ContainsChained(t *testing.T) {
 	}
 	c.ExhaustivePart("20 hand-written chained contains probes")
 }
+
+// ---------------------------------------------------------------- aliasing
+
+type aliasStep struct {
+	From int     `json:"from"` // index of the source variable
+	Fn   string  `json:"fn"`
+	Args []int64 `json:"args"`
+}
+
+type aliasCase struct {
+	Base  []int64     `json:"base"`
+	Steps []aliasStep `json:"steps"`
+}
+
+func init() {
+	harness.RegisterReplayer("C11/aliasing", func(raw json.RawMessage) string {
+		cs, err := unJSON[aliasCase](raw)
+		if err != nil {
+			return "bad case: " + err.Error()
+		}
+		c := harness.New(nopTB{}, "C11", "replay", "")
+		return c11Alias(c, cs)
+	})
+}
+
+func intsArr(xs []int64) V {
+	a := make([]V, len(xs))
+	for i, x := range xs {
+		a[i] = refint.IntV(x)
+	}
+	return refint.ArrV(a)
+}
+
+// c11Alias builds 'v0 = base; v1 = vJ.fn(..); ...' and checks every variable
+// afterwards against value semantics (a result never changes when another
+// array derived from the same receiver is extended).
+func c11Alias(c *harness.Check, cs aliasCase) string {
+	vals := []V{intsArr(cs.Base)}
+	var src strings.Builder
+	src.WriteString("{{ v0 = " + tw.ExprString(litFromModel(vals[0]), nil) + " }}")
+	for i, st := range cs.Steps {
+		if st.From < 0 || st.From >= len(vals) {
+			return ""
+		}
+		args := make([]V, len(st.Args))
+		lits := make([]string, len(st.Args))
+		for k, a := range st.Args {
+			args[k] = refint.IntV(a)
+			lits[k] = tw.ExprString(intLit(a), nil)
+		}
+		r := refBuiltin(vals[st.From], st.Fn, args)
+		if r.St != refint.OK || r.V.K != refint.KArr {
+			return ""
+		}
+		vals = append(vals, r.V)
+		src.WriteString(fmt.Sprintf("{{ v%d = v%d.%s(%s) }}", i+1, st.From, st.Fn, strings.Join(lits, ", ")))
+	}
+	var expect strings.Builder
+	for i, v := range vals {
+		o := &observer{ok: true, n: 100 * (i + 1)}
+		o.observe(fmt.Sprintf("v%d", i), v)
+		src.WriteString("|" + o.tmpl.String())
+		expect.WriteString("|" + o.want.String())
+	}
+	r := evalString(c, "json", mustJSON(cs), src.String(), nil)
+	if f := (want{St: "ok", Kind: "text", S: expect.String()}).matches(r); f != "" {
+		return f + "\ntemplate: " + src.String()
+	}
+	return ""
+}
+
+func TestC11_Aliasing(t *testing.T) {
+	c := harness.New(t, "C11", "aliasing",
+		"chains of array functions over shared receivers: v0 = literal array of 0..7 ints, then up to 5 assignments v_k = v_j.f(args) with f in {slice, append, prepend, reverse} (j any earlier variable), finally every variable is observed (length and each element by index) and compared with value semantics: no result changes because another array derived from the same receiver was extended afterwards (append/prepend/reverse/slice return extensions or copies, receiver and arguments unchanged). Exhaustive part: for base lengths 0..6 every v1 = v0.slice(a, b), v2 = v1.append(9), v3 = v1.append(8) and v1 = v0.append(1), v2 = v0.append(2). Non-trivial: >= 2 steps from a shared source. Distinct by hash / construction.")
+	defer c.Finish()
+	idx := 0
+	run := func(tb harness.TB, cs aliasCase, enum bool) {
+		if enum {
+			c.CaseEnum(len(cs.Steps) >= 2, fmt.Sprintf("base-len:%d", len(cs.Base)))
+		} else {
+			c.Case(len(cs.Steps) >= 2, mustJSON(cs), fmt.Sprintf("steps:%d", len(cs.Steps)))
+		}
+		if c.S.Evals%97 == 0 {
+			c.Sample(cs)
+		}
+		if f := c11Alias(c, cs); f != "" {
+			c.Fail(tb, kindOf(f), cs, "value semantics", f, f)
+		}
+	}
+	for n := 0; n <= 6; n++ {
+		base := make([]int64, n)
+		for i := range base {
+			base[i] = int64(i + 1)
+		}
+		for a := 0; a <= n; a++ {
+			for b := a; b <= n; b++ {
+				idx++
+				if !harness.Mine(idx) {
+					continue
+				}
+				run(t, aliasCase{Base: base, Steps: []aliasStep{{From: 0, Fn: "slice", Args: []int64{int64(a), int64(b)}}, {From: 1, Fn: "append", Args: []int64{9}}, {From: 1, Fn: "append", Args: []int64{8}}, {From: 1, Fn: "prepend", Args: []int64{7}}, {From: 2, Fn: "reverse"}}}, true)
+			}
+		}
+		run(t, aliasCase{Base: base, Steps: []aliasStep{{From: 0, Fn: "append", Args: []int64{1}}, {From: 0, Fn: "append", Args: []int64{2}}, {From: 1, Fn: "append", Args: []int64{3}}, {From: 1, Fn: "append", Args: []int64{4}}}}, true)
+		run(t, aliasCase{Base: base, Steps: []aliasStep{{From: 0, Fn: "prepend", Args: []int64{1}}, {From: 0, Fn: "prepend", Args: []int64{2}}, {From: 0, Fn: "reverse"}, {From: 3, Fn: "append", Args: []int64{5}}}}, true)
+	}
+	c.ExhaustivePart("base lengths 0..6 x all slice bounds x two appends/prepend/reverse on the slice; double appends on one receiver")
+	runRapid(t, c, 3000, 15000, func(rt *rapid.T) {
+		n := rapid.IntRange(0, 7).Draw(rt, "baseLen")
+		cs := aliasCase{Base: make([]int64, n)}
+		for i := range cs.Base {
+			cs.Base[i] = int64(i + 1)
+		}
+		lens := []int{n}
+		for k := rapid.IntRange(1, 5).Draw(rt, "nSteps"); k > 0; k-- {
+			from := rapid.IntRange(0, len(lens)-1).Draw(rt, "from")
+			st := aliasStep{From: from}
+			l := lens[from]
+			switch rapid.IntRange(0, 3).Draw(rt, "fn") {
+			case 0:
+				a := rapid.IntRange(0, l).Draw(rt, "a")
+				b := rapid.IntRange(a, l).Draw(rt, "b")
+				st.Fn, st.Args = "slice", []int64{int64(a), int64(b)}
+				l = b - a
+			case 1:
+				st.Fn = "append"
+				for j := rapid.IntRange(1, 2).Draw(rt, "nApp"); j > 0; j-- {
+					st.Args = append(st.Args, int64(rapid.IntRange(10, 99).Draw(rt, "x")))
+				}
+				l += len(st.Args)
+			case 2:
+				st.Fn, st.Args = "prepend", []int64{int64(rapid.IntRange(10, 99).Draw(rt, "x"))}
+				l++
+			default:
+				st.Fn = "reverse"
+			}
+			cs.Steps = append(cs.Steps, st)
+			lens = append(lens, l)
+		}
+		run(rt, cs, false)
+	})
+}
